@@ -167,10 +167,7 @@ Section C08_Complete.
   Theorem cdi_threshold_mismatch_rejected : forall (threshold ncoeff : nat) prefix pub encM proof rg sg,
     threshold <> ncoeff ->
     verify_cdi_shape Chal H chal bytes_eqb threshold ncoeff com_mult com_eq_sig com_enc_eqs prefix pub encM proof rg sg = false.
-  Proof.
-    intros t n prefix pub encM proof rg sg Hne. unfold verify_cdi_shape.
-    destruct (Nat.eqb_spec t n); [contradiction | reflexivity].
-  Qed.
+  Proof. intros; eapply threshold_mismatch_rejected; eassumption. Qed.
   Print Assumptions cdi_threshold_mismatch_rejected.
 End C08_Complete.
 
@@ -258,6 +255,16 @@ Example shamir_threshold_is_tight :
   c08_reveal (List.combine [1; 2] (c08_share 42 [7; 9] [1; 2])) <> 42.
 Proof. vm_compute. discriminate. Qed.
 Print Assumptions shamir_threshold_is_tight.
+
+(** The executable instance's inverse is an inverse (samples; the instance is otherwise validated by the
+    correspondence run against the implementation). *)
+Example c08_inv_samples :
+  forallb (fun x => match c08_inv x with Some y => (x * y) mod c08_r =? 1 | None => false end)
+          [1; 2; -1; 4294967295; -4294967294; 52435875175126190479447740508185965837690552500527637822603658699938581184512] = true
+  /\ c08_inv 0 = None /\ c08_inv c08_r = None
+  /\ c08_lagrange [1; 2; 3] 1 = zr_lagrange c08_r [1; 2; 3] 1.
+Proof. vm_compute. repeat split; reflexivity. Qed.
+Print Assumptions c08_inv_samples.
 
 Example counter_boundary_nonvacuous :
   c08_range_stmt 255 255 = true /\ c08_range_stmt 0 0 = true /\ c08_range_stmt 1 0 = false
